@@ -16,6 +16,9 @@ use zbus::fdo::ConnectionCredentials;
 pub struct Chunk {
     pub bytes: Vec<u8>,
     pub fds: Vec<OwnedFd>,
+    /// offset (within `bytes`) of the first byte of the message the fds travel with: as in the kernel, they are handed to the
+    /// read that consumes that byte, not to an earlier short read of the same chunk
+    pub fd_offset: usize,
 }
 
 #[derive(Clone, Debug)]
@@ -139,7 +142,7 @@ impl Wire {
             let sz = if chunk_sizes.is_empty() { bytes.len() } else { chunk_sizes[k % chunk_sizes.len()].max(1) };
             k += 1;
             let end = (pos + sz).min(bytes.len());
-            w.staged.push_back(Chunk { bytes: bytes[pos..end].to_vec(), fds: fds.take().unwrap_or_default() });
+            w.staged.push_back(Chunk { bytes: bytes[pos..end].to_vec(), fds: fds.take().unwrap_or_default(), fd_offset: 0 });
             pos = end;
         }
     }
@@ -311,7 +314,13 @@ impl ReadHalf for ScriptRead {
                 }
                 buf[..n].copy_from_slice(&front.bytes[..n]);
                 front.bytes.drain(..n);
-                let fds = std::mem::take(&mut front.fds);
+                let fds = if front.fd_offset < n {
+                    front.fd_offset = 0;
+                    std::mem::take(&mut front.fds)
+                } else {
+                    front.fd_offset -= n;
+                    vec![]
+                };
                 if front.bytes.is_empty() {
                     w.avail.pop_front();
                 }
